@@ -1,5 +1,6 @@
 import NfpmModel.Lemmas.ArchiveLemmas
 import NfpmModel.Lemmas.ArLemmas
+import NfpmModel.Lemmas.TarLemmas
 import NfpmModel.Props.C05
 import NfpmModel.Generated.G8WriteTgz
 import NfpmModel.Generated.G7Accepted
@@ -191,6 +192,49 @@ set_option maxRecDepth 100000 in
 /-- non-vacuity: a three-member deb skeleton with an odd-sized member reads back -/
 example : Ar.read (Ar.file 1700000000 [⟨b!"debian-binary", b!"2.0\n"⟩, ⟨b!"control.tar.gz", b!"abc"⟩, ⟨b!"data.tar.zst", b!"de"⟩])
     = some [⟨b!"debian-binary", b!"2.0\n"⟩, ⟨b!"control.tar.gz", b!"abc"⟩, ⟨b!"data.tar.zst", b!"de"⟩] := by decide
+
+/-! ### the tar streams of deb and ipk, byte for byte -/
+
+/-- **deb / ipk tar streams are well-formed**: from the byte stream archive/tar writes in GNU format (header blocks
+    with leading-zero octal numbers, NUL-filled strings and checksum; bodies padded to 512; two zero blocks) an
+    independent reader that verifies magic and checksum recovers exactly the members that were written – every
+    header field, every body, in order – for every member list a plain header can express (names and link names
+    of at most 100 bytes, owner/group names of at most 32, numbers within their octal fields, no NUL in strings) -/
+theorem tar_roundtrip (ms : List Tar.Member) (hm : ∀ m ∈ ms, Tar.MemberOK m) : Tar.read (Tar.archive ms) = some ms :=
+  Tar.read_archive ms hm
+
+/-- the stream is a whole number of 512-byte blocks and ends in the 1024-byte end-of-archive marker -/
+theorem tar_archive_shape (ms : List Tar.Member) :
+    (Tar.archive ms).length % 512 = 0 ∧ ∃ pre, Tar.archive ms = pre ++ Tar.zeros 1024 := by
+  refine ⟨?_, ⟨_, rfl⟩⟩
+  unfold Tar.archive
+  simp only [List.length_append, Tar.zeros_length]
+  have : ∀ l : List Tar.Member, (l.flatMap Tar.member).length % 512 = 0 := by
+    intro l
+    induction l with
+    | nil => simp
+    | cons m rest ih =>
+      simp only [List.flatMap_cons, List.length_append, Tar.member_length]
+      have hp : (m.body.length + Tar.blockPad m.body.length) % 512 = 0 := by unfold Tar.blockPad; omega
+      omega
+  have := this ms
+  omega
+
+/-- a payload member of the C01 model as a tar member (deb and ipk write uid = gid = 0 and the names) -/
+def toTar (m : Member) (body : Bytes) : Tar.Member :=
+  { hdr := { name := m.name, mode := m.mode, size := body.length, mtime := m.mtime.toNat, typeflag := m.kind,
+             linkname := m.link, uname := m.uname, gname := m.gname }, body := body }
+
+/-- **what a tar reader gets from a deb / ipk data stream is the member list of the C01 model**: for members within
+    the limits of a plain header, reading the rendered stream back yields, in order, a member whose name, type,
+    mode, owner, group, time, size, link target and body are those of the model member -/
+theorem data_tar_reads_back_model_members (ms : List (Member × Bytes))
+    (hm : ∀ p ∈ ms, Tar.MemberOK (toTar p.1 p.2)) :
+    Tar.read (Tar.archive (ms.map (fun p => toTar p.1 p.2))) = some (ms.map (fun p => toTar p.1 p.2)) := by
+  apply Tar.read_archive
+  intro m hmem
+  obtain ⟨p, hp, rfl⟩ := List.mem_map.mp hmem
+  exact hm p hp
 
 /-- **archlinux**: payload first, then .PKGINFO, .MTREE, and .INSTALL iff scripts exist -/
 theorem arch_member_order (payload : List Bytes) (hasScripts : Bool) :
